@@ -72,6 +72,10 @@ type Exec struct {
 	noPanicAll  bool
 	lockObls    bool
 	cexBase     []CexTerm
+	// state units (FSM layer): the statically known action chain of the state
+	nameOverride string
+	chain        []*ssa.Function
+	chainPos     int
 }
 
 type frame struct {
@@ -659,6 +663,9 @@ func clauseProps(cl *Clause, ct *Contract) []string {
 }
 
 func (x *Exec) fname() string {
+	if x.nameOverride != "" {
+		return x.nameOverride
+	}
 	return x.top.Pkg.Pkg.Name() + "." + x.top.RelString(x.top.Pkg.Pkg)
 }
 
